@@ -24,22 +24,37 @@ Definition snapshot (st : state) : list row :=
 
 (* a harness operation: a client operation, or the release of proxy p with another daemon thread's action
    (close_stream / housekeeping, given as the server event it performs) interleaved into the daemon's
-   disconnect handling.  By Props/C10.v (C10_disconnect_is_visits, C10_racing_disconnect_outcome) every such
-   interleaving ends in the table of: the other action, then the disconnect. *)
-Inductive hop := HOp (o : cop) | HRace (p : N) (ev : event).
+   disconnect handling; [win] says where it got in (the entry whose re-read was done and whose write-back was not,
+   as observed by the harness).  By Props/C10.v (C10_disconnect_is_visits, C10_racing_disconnect_outcome) an
+   interleaving between loop iterations ends in the table of: the other action, then the disconnect; inside an
+   entry's own window the removed entry is written back (C10_closed_reinserted_in_reread_window_refuted). *)
+Inductive hop := HOp (o : cop) | HRace (p : N) (ev : event) (win : option sid).
 
 Definition hstep (cfg : config) (cs : cstate) (o : hop) : cstate * cresp :=
   match o with
   | HOp op => let '(cs1, r, _) := cstep gen_policy cfg cs op in (cs1, r)
-  | HRace p ev =>
+  | HRace p ev win =>
       match nthN (proxies cs) p with
       | None => (cs, CNone)
       | Some px =>
           match p_conn px with
           | None => (cs, CNone)       (* not connected: no disconnect handling runs, nothing to interleave with *)
-          | Some _ =>
+          | Some c =>
               let '(cs1, _) := srv_step cfg cs ev in
-              let '(cs2, r, _) := cstep gen_policy cfg cs1 (CRelease p) in (cs2, r)
+              let '(cs2, r, _) := cstep gen_policy cfg cs1 (CRelease p) in
+              (* win = Some x: the other thread got in between the loop's re-read of entry x and its write-back
+                 (micro-steps M2Read c x; removal; M2Write c x): if it removed x, the write-back puts x back *)
+              match win with
+              | None => (cs2, r)
+              | Some x =>
+                  match lookup x (tbl (srv cs)), lookup x (tbl (srv cs1)) with
+                  | Some s, None =>
+                      if owned_by c s && (0 <? linger cfg)
+                      then (with_srv cs2 (set_tbl (srv cs2) (upsert x (disconnect_stream cfg (now (srv cs)) c s) (tbl (srv cs2)))), r)
+                      else (cs2, r)
+                  | _, _ => (cs2, r)
+                  end
+              end
           end
       end
   end.
